@@ -9,9 +9,13 @@ det = {}
 p = os.path.join(ROOT, 'detection.log')
 if os.path.exists(p):
     for line in open(p):
-        m = re.match(r'(\S+): rc=(\d+) violations=(\d+) wall=(\d+)s\s*(.*)', line.strip())
+        m = re.match(r'(\S+): (?:prop=(\S+) tier=(\S+) head=(\S+) )?rc=(\d+) violations=(\d+) wall=(\d+)s\s*(.*)', line.strip())
         if m:
-            det[m.group(1)] = dict(rc=int(m.group(2)), violations=int(m.group(3)), wall_s=int(m.group(4)), first_failed=m.group(5).strip(), raw=line.strip())
+            prop = m.group(2) or m.group(1).split('-')[0]
+            # the latest run of a seed against its own property wins; runs against another property are kept aside
+            key = m.group(1) if prop == m.group(1).split('-')[0] else m.group(1) + '@' + prop
+            det[key] = dict(property_checked=prop, tier=m.group(3) or 'quick', repo_head=m.group(4), rc=int(m.group(5)), violations=int(m.group(6)),
+                            wall_s=int(m.group(7)), first_failed=m.group(8).strip()[:300], raw=line.strip()[:400])
 rows = []
 for d in sorted(glob.glob(os.path.join(ROOT, 'C*-*'))):
     sid = os.path.basename(d)
@@ -25,10 +29,11 @@ for d in sorted(glob.glob(os.path.join(ROOT, 'C*-*'))):
     if m:
         needs = ' '.join(m.group(2).split())[:500]
     dd = det.get(sid)
+    other = {k.split('@')[1]: v for k, v in det.items() if k.startswith(sid + '@')}
     meta = dict(seed=sid, property=prop, property_title=props.get(prop), files_touched=files,
                 needs_to_manifest=needs or 'see notes.md', origin='independent sub-agent given only the property text and a scratch worktree',
-                confirmed_by_me=conf, check_run=('bin/seedtest %s  (git -C /repo apply patch.diff; bin/check %s --tier quick --no-evidence; git -C /repo checkout -- .)' % (sid, prop)),
-                detection=dd)
+                confirmed_by_me=conf, check_run=('bin/seedtest %s  (scratch worktree of /repo HEAD + patch.diff; VERIF_REPO=<worktree> bin/check %s --tier quick --no-evidence; worktree removed)' % (sid, prop)),
+                detection=dd, detection_by_other_property_checks=other or None)
     json.dump(meta, open(os.path.join(d, 'meta.json'), 'w'), indent=1)
     status = 'not run'
     if dd:
